@@ -522,7 +522,10 @@ func (server *SugarDB) updateKeysInCache(ctx context.Context, keys []string) (in
 		}
 	}
 	if firstErr != nil {
-		return touchCounter, fmt.Errorf("adjustMemoryUsage error: %+v", firstErr)
+		// The keys have been touched. Failing to bring memory usage back under the limit (an empty cache
+		// in one database, nothing evictable under a volatile policy) is not an error of the command
+		// that touched them.
+		log.Printf("updateKeysInCache: adjustMemoryUsage error: %+v\n", firstErr)
 	}
 
 	return touchCounter, nil
